@@ -16,6 +16,9 @@ def bind_repo():
         sys.path.insert(0, src)
     os.environ.setdefault(GUARD, "1")
     import aioswitcher  # noqa: F401
+    import logging
+
+    logging.getLogger("aioswitcher").addHandler(logging.NullHandler())
 
     got = os.path.dirname(os.path.abspath(aioswitcher.__file__))
     if got != os.path.join(os.path.abspath(src), "aioswitcher"):
